@@ -392,6 +392,8 @@ fn free_main(o: &Opts) -> i32 {
     let pers = o.num("pers", 0u32) == 1;
     let lim: i64 = o.num("lim", -1);
     let rounds: usize = o.num("rounds", 20);
+    let churn = o.num("churn", 0u32) == 1;
+    let background: usize = o.num("background", 0);
     let cfg = json!({"pers": pers, "ttl": true, "cache": o.num("cache", 0u32) == 1, "lim": lim,
                      "blocks": o.num("blocks", 40u64)});
     if pers { obs::set_cpus(o.num("cpus", 4)); }
@@ -428,7 +430,15 @@ fn free_main(o: &Opts) -> i32 {
                 let auto = rng.random_bool(0.6);
                 let tsv = NOW - 5 * E9 + rng.random_range(0..6);
                 let v = pool[rng.random_range(0..pool.len())].clone();
-                let op = match rng.random_range(0..14) {
+                let op = if churn {
+                    // create / delete churn on very few keys, scans in between
+                    match rng.random_range(0..8) {
+                        0 | 1 | 2 => json!({"op": "insert", "k": k, "v": v, "auto": true}),
+                        3 | 4 | 5 => json!({"op": "delete", "k": k, "auto": true}),
+                        6 => json!({"op": "iia", "k": k, "v": v}),
+                        _ => json!({"op": "range", "lo": 1, "hi": nkeys, "lim": nkeys + 1}),
+                    }
+                } else { match rng.random_range(0..14) {
                     0 | 1 => json!({"op": "insert", "k": k, "v": v, "auto": auto, "tsv": tsv}),
                     2 => json!({"op": "delete", "k": k, "auto": auto, "tsv": tsv}),
                     3 | 4 => json!({"op": "get", "k": k}),
@@ -440,16 +450,20 @@ fn free_main(o: &Opts) -> i32 {
                     12 if pers => json!({"op": "flush"}),
                     12 => json!({"op": "contains", "k": k}),
                     _ => json!({"op": "update_ttl", "k": k, "ttlv": rng.random_range(0..3) * 50}),
-                };
+                } };
                 ops.push(op);
             }
             threads.push(ops);
         }
         let prog = json!({"cfg": cfg, "keys": keynames, "init": init, "threads": threads});
         let (sh, threads) = setup_program(&prog, &path);
+        for i in 0..background {
+            // keys outside the universe: they only make the ordered index realistically deep
+            let _ = sh.store.insert(format!("zbg{i:06}").as_bytes(), b"bg");
+        }
         let reset = reset_event(&prog["cfg"], &sh.keys, &sh.store, nthreads + 1, &sh.vals, prog["init"].as_array().map(|a| a.as_slice()).unwrap_or(&[]));
         obs::install();
-        feoxdb::verif::sched::set_random_yield(o.num("yieldmask", 3), seed.wrapping_mul(31).wrapping_add(round as u64));
+        feoxdb::verif::sched::set_random_yield(if churn { 0 } else { o.num("yieldmask", 3) }, seed.wrapping_mul(31).wrapping_add(round as u64));
         let stop = Arc::new(std::sync::atomic::AtomicBool::new(false));
         // monitor: samples memory usage (C13: never above the limit at any instant)
         let mon = {
